@@ -36,6 +36,9 @@ CKPT = 'ranking_checkpoint_tmp.tsv'
 # the monitored functions as imported from /repo, before any monitor wraps them (a long-lived simulated process
 # installs fresh monitors for every task it runs)
 _PRISTINE = {n: getattr(core_ranking, n) for n in ('compute_batch_ranking', 'mixed_rank_graph', 'prior_combinations_sample', 'estimate_importances_minibatches')}
+# heuristics for which a --reference_model_JSON run is part of the workload (the numba estimators take the (n,1) matrix the
+# reference-model plumbing hands them; the other non-surrogate scorers are not written for that shape)
+REFJSON_HEURISTICS = {'MI-numba-randomized', 'MI-numba-3mr', 'Constant'}
 MI_HEURISTICS = {'MI', 'MI-numba-randomized', 'MI-numba-3mr', 'max-value-coverage', 'correlation-Pearson', 'AMI', 'Constant'}
 
 
@@ -409,10 +412,14 @@ class Monitors:
                 self.violate('C07', 'more-than-cap-evaluated', {'evaluated': evaluated, 'cap': cap, 'heuristic': args.heuristic})
         heuristic = args.heuristic
         label = args.label_column
+        if args.reference_model_JSON:
+            self.probe('reference_model_json_graphs')
+            if any(' AND ' in c for c in cols):
+                self.probe('reference_model_json_combined_features_in_graph')
         if 'C06' in self.oracles:
             self.check_pairs(cols, trip, args)
         if 'C05' in self.oracles and frame is not None and heuristic in MI_HEURISTICS and float(getattr(args, 'mi_stratified_sampling_ratio', 1.0)) >= 1.0 \
-                and not args.reference_model_JSON:
+                and (not args.reference_model_JSON or heuristic in REFJSON_HEURISTICS):
             coded = {}
             ref_scores, got_scores = [], []
             checked = 0
@@ -720,6 +727,11 @@ def simulated_process(spec, phase, root):
     work = os.path.join(root, 'work')
     os.makedirs(work, exist_ok=True)
     os.chdir(work)
+    if spec.get('ref_json'):
+        # a hand-made reference-model description (the --reference_model_JSON knob), private to this simulated machine
+        with open(os.path.join(work, 'ref_model.json'), 'w') as fh:
+            json.dump(spec['ref_json'], fh)
+        cli['reference_model_JSON'] = 'ref_model.json'
     d = Decisions(seed=phase.get('seed', spec.get('seed')), replay=phase.get('replay', spec.get('replay')))
     sim = Sim(d)
     if phase.get('crash'):
